@@ -728,6 +728,20 @@ func recordC10Part(env *Env, rng *rand.Rand, count int, part int) {
 			env.emit(ev)
 			continue
 		}
+		if part == 0 && (i == 2 || i == 3) {
+			// a long sequence whose only occurrences lie far from its start (beyond 10 000 bases)
+			syms := genPattern(rng, 20, genOpts{pure: true})
+			pt := patText(syms)
+			seq := append(append(randSeq(rng, 10400+rng.Intn(300), 0), instance(rng, syms, i-2, 0)...), randSeq(rng, 200+rng.Intn(200), 0)...)
+			if i == 3 {
+				seq = append(append(seq, instance(rng, syms, 0, 0)...), randSeq(rng, 50, 0)...)
+			}
+			ev := runScenario(pt, string(seq), 1, 0, 0, -1, pool, i)
+			ev.Src = "T"
+			ev.Cls = "plen4-32/sub/e1/plain/full/late"
+			env.emit(ev)
+			continue
+		}
 		indel := 0
 		if rng.Intn(5) < 2 {
 			indel = 1
